@@ -47,6 +47,13 @@ def main():
         if rc != 0:
             print(name, "APPLY FAILED", out); continue
         results = {}
+        # the evidence files describe the UNCHANGED tree: keep them out of the way while a mutation is applied
+        evid = os.path.join(VERIF, "evidence")
+        evbak = os.path.join(VERIF, ".build", "evidence-unchanged-tree")
+        if os.path.isdir(evid):
+            shutil.rmtree(evbak, ignore_errors=True)
+            os.makedirs(os.path.dirname(evbak), exist_ok=True)
+            shutil.copytree(evid, evbak)
         try:
             for chk in (checks or [prop]):
                 t0 = time.time()
@@ -61,6 +68,9 @@ def main():
         finally:
             sh(["git", "-C", REPO, "checkout", "--", "."])
             sh(["git", "-C", REPO, "clean", "-fdq"])
+            if os.path.isdir(evbak):
+                shutil.rmtree(evid, ignore_errors=True)
+                shutil.copytree(evbak, evid)
         meta_p = os.path.join(dst, "meta.json")
         meta = json.load(open(meta_p)) if os.path.exists(meta_p) else dict(id=name, property=prop, origin="independent sub-agent given only the property text")
         meta.setdefault("results", {}).setdefault(tier, {}).update(results)
